@@ -294,7 +294,7 @@ def c08(ctx):
             target_path = path + inner
             idx = inorder_index(reach, target_path)
             node = core.inorder(root)[idx]
-            rule = core.RULES[rn]()
+            rule = core.rule_instance(rn)
             can = bool(rule.can_apply_to(node))
             if can != applicable:
                 bad.append({"schema": name, "text": text, "node": idx,
@@ -360,7 +360,7 @@ def c08(ctx):
             root = core.tuple_to_py(reach)
             idx = inorder_index(reach, idx_path)
             node = core.inorder(root)[idx]
-            rule = core.RULES["bm"]()
+            rule = core.rule_instance("bm")
             can = bool(rule.can_apply_to(node))
             if can != applicable:
                 bad.append({"schema": name, "text": text, "problem": "applicability", "got": can})
